@@ -184,5 +184,8 @@ for _pid in ('C01', 'C02'):
 PROPS['C12']['e1'].append(dict(NET2D)); PROPS['C12']['must_reach'].append('net2d-xml')
 PROPS['C12']['bounds'] = PROPS['C12']['bounds'] + '; plane networks (net2d/xml): 4 networks with directions, distances, angles: adjusted points, orientation shifts (approximate and adjusted, wrapped to [0,400) gon), observed and adjusted directions / angles / distances, qrr, counts and sum of squares read back; errors below 1e-7 rad / 0.01 mm'
 
-PROPS['C06']['bounds'] = PROPS['C06']['bounds'] + '; a height difference hanging on a trigonometric point and a vector between two points fixed by polar shots (heights / positions found in two rounds of the strategies); a spatial traverse between fixed points with a different instrument / target height on every sight (0.1-2 m), coordinates omitted; spatial networks also with omitted coordinates (Acord2) for every spec, incl. instrument 1 m / prism poles 2.5-3.25 m and a free station (coordinates and height omitted) surveying two new points; plane strategies of Acord2 with omitted coordinates in integer geometries with rational distances: traverse between fixed points oriented at both ends / open / listed backwards, forward intersection of directions, intersection of distances, polar method from a station oriented by one fixed target; resections by directions with a target pair in both orders (closed round, two rounds in opposite order); resections through Acord2: three hand-made ones and a fixed family of 24 (thorough 60) pseudo-random two-angle resections in integer geometries (general position; the circles of the Angle_angle construction cut at sin >= 0.11, inside what Acord2 documents as resolvable; constants compared numerically at 512 bits)'
+PROPS['C06']['bounds'] = PROPS['C06']['bounds'] + '; nearly horizontal sights whose height difference changes sign with the instrument / target heights; a height difference hanging on a trigonometric point and a vector between two points fixed by polar shots (heights / positions found in two rounds of the strategies); a spatial traverse between fixed points with a different instrument / target height on every sight (0.1-2 m), coordinates omitted; spatial networks also with omitted coordinates (Acord2) for every spec, incl. instrument 1 m / prism poles 2.5-3.25 m and a free station (coordinates and height omitted) surveying two new points; plane strategies of Acord2 with omitted coordinates in integer geometries with rational distances: traverse between fixed points oriented at both ends / open / listed backwards, forward intersection of directions, intersection of distances, polar method from a station oriented by one fixed target; resections by directions with a target pair in both orders (closed round, two rounds in opposite order); resections through Acord2: three hand-made ones and a fixed family of 24 (thorough 60) pseudo-random two-angle resections in integer geometries (general position; the circles of the Angle_angle construction cut at sin >= 0.11, inside what Acord2 documents as resolvable; constants compared numerically at 512 bits)'
 PROPS['C12']['bounds'] = PROPS['C12']['bounds'] + '; two of the plane networks also in the inconsistent frame "en"'
+
+PROPS['C08']['bounds'] = PROPS['C08']['bounds'] + '; the free vector network also with datum sets of mixed status (height constrained with free position, "xyZ", and the reverse, "XYz")'
+PROPS['C04']['bounds'] = PROPS['C04']['bounds'] + '; network histories also on the free vector network (both ends of its first vector are new points, so unknown indexes of x and y of a point are not adjacent)'
